@@ -44,7 +44,9 @@ func runC06(c *Check) {
 	for _, f := range sub.findings {
 		c.Ob("R6.2", f.Construct, false, f.Pos, f.Msg, f.Path...)
 	}
-	c.Ob("R6.2", "bitswap containers", len(sub.findings) == 0, "-", fmt.Sprintf("%d R10.1 obligations evaluated for %d Block types", sub.evals, len(blocks)))
+	if len(sub.findings) == 0 {
+		c.Ob("R6.2", "bitswap containers", true, "-", fmt.Sprintf("%d R10.1 obligations evaluated for %d Block types", sub.evals, len(blocks)))
+	}
 	c06Decoders(c)
 	c06Status(c)
 	c06Panics(c)
@@ -109,6 +111,45 @@ func c06Escape(c *Check) {
 				n++
 				key := method.Name()
 				base := valueBase(respArg)
+				// the request closure is invoked once per attempt: a response target that accumulates
+				// (anything that is not a shwap decoder, which R6.3 shows fully overwrites) must be
+				// reset inside the closure before it is handed to the client
+				if rn := derefNamed(respArg.Type()); rn != nil && rn.Obj().Pkg() != nil && rn.Obj().Pkg().Path() != pkgShwap {
+					var getBlock *ssa.BasicBlock
+					var getIns ssa.Instruction
+					for _, bb := range reqFn.Blocks {
+						for _, i2 := range bb.Instrs {
+							if g, ok := i2.(ssa.CallInstruction); ok && objIs(calleeObj(g.Common()), pkgShrex, "Client", "Get") {
+								getBlock, getIns = bb, i2
+							}
+						}
+					}
+					resets := blocksWhere(reqFn, func(i2 ssa.Instruction) bool {
+						g, ok := i2.(ssa.CallInstruction)
+						if !ok || !callNamed(g, "Reset") {
+							return false
+						}
+						a := callRecvArgs(g)
+						return len(a) > 0 && valueBase(a[0]) == base
+					})
+					okReset := false
+					if resets[getBlock] {
+						for _, i2 := range getBlock.Instrs {
+							if i2 == getIns {
+								break
+							}
+							if g, ok := i2.(ssa.CallInstruction); ok && callNamed(g, "Reset") {
+								okReset = true
+							}
+						}
+					}
+					if !okReset && getBlock != nil {
+						res := gateWalkBarrier(p, reqFn, map[*ssa.BasicBlock]bool{getBlock: true}, nil, minusBarrier(resets, map[*ssa.BasicBlock]bool{getBlock: true}))
+						okReset = len(resets) > 0 && !res.Reached
+					}
+					c.Ob("R6.1", key+": accumulating response target reset per attempt", okReset, p.Pos(call.Pos()),
+						fmt.Sprintf("the response target is a %s, which appends: the per-attempt request closure resets it before every client.Get, otherwise bytes of a failed attempt corrupt the next peer's answer", rn.Obj().Name()))
+				}
 				// is the location an element of a slice (IndexAddr) reached through free variables?
 				elem := false
 				for v := range backSlice(respArg, SliceOpt{}).Vals {
